@@ -21,7 +21,12 @@ def _random_sets(rng, n_sets, on_wall, dims=(1, 2, 3)):
             gens.append(g)
         if on_wall and not any(any(g[a] in (an[a], an[a] + w[a]) for a in range(d)) for g in gens): gens[0][0] = an[0]
         if len({tuple(g) for g in gens}) < n: continue
-        reqs.append({"op": "build", "gens": gens, "anchor": an, "width": w, "dim": d, "periodic": False})
+        rq = {"op": "build", "gens": gens, "anchor": an, "width": w, "dim": d, "periodic": False}
+        if t % 3 == 2 and n > 1:
+            m = [rng.random() < 0.6 for _ in range(n)]
+            if not any(m): m[0] = True
+            rq["mask"] = m
+        reqs.append(rq)
     return reqs
 
 
@@ -34,8 +39,9 @@ def closure_probe(seed, n_sets, on_wall):
         if "cells" not in a: return cells, {"request": rq, "real": a, "what": "construction panics"}
         d, w = rq["dim"], rq["width"]; sc = max(w[:d])
         for c in range(len(rq["gens"])):
+            if "mask" in rq and not rq["mask"][c]: continue       # only constructed cells are closed surfaces
             cells += 1
-            fs = [f for f in a["faces"] if f["left"] == c or (f["right"] == c and f["shift"] is None)]
+            fs = [a["faces"][i] for i in a["cells"][c]["face_indices"]]      # the cell's faces as listed by the connectivity structure
             tot, div = [0.0, 0.0, 0.0], 0.0
             for f in fs:
                 s = 1 if f["left"] == c else -1
